@@ -54,8 +54,8 @@ def run_lines_e(exe, args, lines, **kw):
 
 def run(ctx):
     quick = ctx.quick()
-    st = family_setup(ctx, PROPS, n_random=5 if quick else 40, tl2_random=False, objx_random=2 if quick else 12)
-    nhist = 6 if quick else 80
+    st = family_setup(ctx, PROPS, n_random=5 if quick else 15, tl2_random=False, objx_random=2 if quick else 6)
+    nhist = 6 if quick else 18
     stats = {"schemas": 0, "types": 0, "histories": 0, "steps": 0, "steps_tl1_valid": 0, "steps_tl1_mutated": 0, "steps_tl2": 0, "steps_json": 0,
              "steps_truncated_tl2_json": 0, "steps_json_field_absent": 0, "steps_reset": 0, "steps_after_failed_decode": 0, "kernel_rejected": 0, "model_compared_steps": 0,
              "go_fillrandom_values": 0, "budget_skips": 0}
